@@ -98,11 +98,29 @@ class JournalFileBackend(BaseJournalBackend):
                     del self._log_number_offset[log_number + 1]
             return logs
 
+    def _drop_unterminated_tail(self) -> None:
+        # A process killed in the middle of a write leaves an unterminated record at the end of
+        # the file. No reader returns such a record, so drop it; otherwise the next record would
+        # be glued to it and both would be lost. Must be called with the lock held.
+        with open(self._file_path, "rb+") as f:
+            size = pos = f.seek(0, os.SEEK_END)
+            while pos > 0:
+                start = max(0, pos - 4096)
+                f.seek(start)
+                newline = f.read(pos - start).rfind(b"\n")
+                if newline != -1:
+                    pos = start + newline + 1
+                    break
+                pos = start
+            if pos != size:
+                f.truncate(pos)
+
     def append_logs(self, logs: list[dict[str, Any]]) -> None:
         with get_lock_file(self._lock):
             what_to_write = (
                 "\n".join([json.dumps(log, separators=(",", ":")) for log in logs]) + "\n"
             )
+            self._drop_unterminated_tail()
             with open(self._file_path, "ab") as f:
                 f.write(what_to_write.encode("utf-8"))
                 f.flush()
